@@ -6,6 +6,10 @@ ENGINES = [
      "kind_free_text": "parent/worker process pool, deterministic sliced enumeration, known-findings matcher, determinism gate (re-execution of each new violation), evidence + replay writer"},
     {"name": "SCHED", "path": "/verif/mc/sched", "serves_properties": ["C35", "C36", "C37", "C38", "C39"],
      "kind_free_text": "bounded-preemption (ICB) depth-first exploration of thread schedules of the real TurDB code compiled against a parking_lot shim over shuttle; schedules are choice vectors, replayed twice before a verdict is trusted"},
+    {"name": "CRASH", "path": "/verif/mc/checks/src/bin/crash.rs", "serves_properties": ["C01", "C02", "C40"],
+     "kind_free_text": "records a workload on the real Database through syscall interposers + the page_mut hook, builds kill / strict / lenient power-loss images at every event, reopens every distinct crash state with the real Database::open"},
+    {"name": "SEQ", "path": "/verif/mc/checks/src/bin", "serves_properties": ["C03", "C25", "C28", "C29", "C34"],
+     "kind_free_text": "explicit-state BFS / bounded history enumeration of a real component (B-tree over in-memory Storage, freelist, WAL, HNSW file) in lock-step with a reference model"},
     {"name": "BYTES/INPUT", "path": "/verif/mc/checks/src/bin", "serves_properties": ["C03", "C23", "C26", "C27", "C30", "C31", "C32", "C33", "C41"],
      "kind_free_text": "bounded-exhaustive input enumeration of real codec functions on guard-paged buffers"},
 ]
